@@ -482,9 +482,16 @@ POS_TEMPLATES = {
     "index": ("def f(x: int, y: int) -> int:\n    xs = array(x, y, x)\n    return xs[L]\n", "int", ()),
     "default_ret": ("def f(x: T, y: T) -> T:\n    if x > y:\n        return x\n    return L\n", "T", ()),
     "while": ("def f(x: int, y: int) -> int:\n    while x < L < y:\n        x = y\n    return x\n", "int", ()),
+    # argument of an OVERLOADED function: the literal is first tried against an earlier variant (int / float parameter) that
+    # fails on a later argument, then against the matching variant's parameter type
+    "overload_arg": ("def ov_a(p: int, q: bool) -> int:\n    return p\n\n@guppy\ndef ov_b(p: T, q: T) -> T:\n    return p\n\n"
+                     "@guppy.overload(ov_a, ov_b)\ndef ov(): ...\n\n@guppy\ndef f(x: T, y: T) -> T:\n    return ov(L, x)\n", "T", ()),
+    "overload_two_lits": ("def ov_a(p: float, q: bool) -> float:\n    return p\n\n@guppy\ndef ov_c(p: int, q: bool) -> int:\n    return p\n\n"
+                          "@guppy\ndef ov_b(p: T, q: T) -> T:\n    return p\n\n"
+                          "@guppy.overload(ov_a, ov_c, ov_b)\ndef ov(): ...\n\n@guppy\ndef f(x: T, y: T) -> T:\n    return ov(L, 1)\n", "T", (1,)),
     "assign_then_cmp": ("def f(x: int, y: int) -> bool:\n    z = L\n    return x < z < y\n", "bool", ()),
 }
-POS_WITH_NAT = ("call_arg", "tuple", "default_ret")
+POS_WITH_NAT = ("call_arg", "tuple", "default_ret", "overload_arg", "overload_two_lits")
 
 
 def _pos_source(c, python=False):
@@ -535,7 +542,13 @@ def _pos_python(c, pairs):
     class _Arr:
         def __class_getitem__(cls, item):
             return list
-    env = {"guppy": (lambda f: f), "nat": int, "array": (lambda *a: list(a)), "__builtins__": {"int": int, "bool": bool, "tuple": tuple, "abs": abs}}
+    class _G:
+        def __call__(self, f):
+            return f
+
+        def overload(self, *variants):
+            return lambda _stub: (lambda *a: variants[-1](*a))    # the matching variant is the last one in the templates
+    env = {"guppy": _G(), "nat": int, "array": (lambda *a: list(a)), "__builtins__": {"int": int, "bool": bool, "tuple": tuple, "abs": abs}}
     exec(_pos_source(c, python=True), env)
     wrap = (lambda r: r % P64) if c["kind"] == "nat" else (lambda r: ((r + P63) % P64) - P63)
     out = []
@@ -609,7 +622,11 @@ def _tie_positions(ctx):
                               f"{'accepted' if rcls == 'ok' else 'rejected (' + rcls + ')'} but the statement says {'accept' if acc else 'reject'}: `{line}`",
                               dict(rep, real=rcls, oracle=acc))
                 continue
-            if rcls != mcls:
+            if c["tpl"].startswith("overload"):
+                # every variant's failure is folded into one OverloadNoMatchError: only accept/reject is comparable
+                if (rcls == "ok") != (mcls == "ok"):
+                    ctx.broke(f"correspondence Model/IntLit.lean vs checker at position {key}: real={rcls} model={mcls}")
+            elif rcls != mcls:
                 ctx.broke(f"correspondence Model/IntLit.lean vs checker at position {key}: real={rcls} model={mcls}")
             if rcls != "ok":
                 continue
